@@ -73,15 +73,24 @@ static std::string run_op(const TasmanianSparseGrid &g, const Cfg &cfg, int op){
 }
 
 // ---------------------------------------------------------------- grid states
-struct StateSpec { Cfg cfg; int kind; }; // kind: 0 fresh (no values), 1 loaded, 2 loaded + pending refinement, 3 restored from file (loaded)
-static const char *SKN[] = {"fresh", "loaded", "refined-pending", "read-from-file"};
+struct StateSpec { Cfg cfg; int kind; }; // kind: 0 fresh (no values), 1 loaded, 2 loaded + pending refinement, 3 restored from file (loaded), 4 dynamic construction with parked samples
+static const char *SKN[] = {"fresh", "loaded", "refined-pending", "read-from-file", "construction-parked-samples"};
 static void build_state(const StateSpec &s, TasmanianSparseGrid &g){
     make(g, s.cfg); int d = s.cfg.dims, outs = s.cfg.outs;
     if (s.kind >= 1 && outs > 0) g.loadNeededValues(model_values(s.cfg.fam == F_FOURIER ? 4 : 0, g.getNeededPoints(), d, outs));
     if (s.kind == 2 && outs > 0){ if (g.isLocalPolynomial() || g.isWavelet()) g.setSurplusRefinement(1e-2, refine_classic, -1, std::vector<int>()); else if (!nonNestedGlobal(g)) g.setAnisotropicRefinement(type_iptotal, 2, 0, std::vector<int>()); }
     if (s.kind == 3){ std::stringstream ss; g.write(ss, true); TasmanianSparseGrid h; h.read(ss, true); g = std::move(h); }
+    if (s.kind == 4 && outs > 0){ // construction in progress: the least important candidates are delivered first, so they stay parked in the construction data (lists of samples / candidate tensors)
+        try{
+            g.beginConstruction();
+            std::vector<double> cand = (g.isLocalPolynomial() || g.isWavelet()) ? g.getCandidateConstructionPoints(1e-5, refine_classic) : g.getCandidateConstructionPoints(type_level, std::vector<int>((size_t) d, 1));
+            size_t nc = cand.size() / (size_t) d, take = std::min<size_t>(4, nc);
+            if (take > 0){ std::vector<double> x(cand.end() - (long)(take * d), cand.end()); g.loadConstructedPoints(x, model_values(s.cfg.fam == F_FOURIER ? 4 : 0, x, d, outs)); }
+        }catch(std::exception &){ /* a family that does not admit construction stays in the loaded state */ }
+    }
 }
 static Cfg mkc(int fam, TypeOneDRule rule, int dims, int outs, int depth, int order = 1){ Cfg c; c.fam = fam; c.rule = rule; c.dims = dims; c.outs = outs; c.depth = depth; c.order = order; return c; }
+static bool nonNestedRule(TypeOneDRule r){ return OneDimensionalMeta::isNonNested(r); }
 static std::vector<StateSpec> states(const std::string &tier){
     std::vector<Cfg> C = { mkc(F_WAVELET, rule_wavelet, 1, 1, 2, 1), mkc(F_WAVELET, rule_wavelet, 2, 1, 1, 3), mkc(F_LOCALP, rule_localp, 2, 2, 2, 1), mkc(F_LOCALP, rule_semilocalp, 1, 1, 2, 2),
                            mkc(F_SEQUENCE, rule_rleja, 2, 1, 2), mkc(F_GLOBAL, rule_clenshawcurtis, 2, 1, 2), mkc(F_GLOBAL, rule_gausslegendre, 1, 1, 2), mkc(F_FOURIER, rule_fourier, 1, 1, 1),
@@ -89,7 +98,8 @@ static std::vector<StateSpec> states(const std::string &tier){
     if (tier == "thorough"){ C.push_back(mkc(F_LOCALP, rule_localp0, 2, 1, 2, 2)); C.push_back(mkc(F_LOCALP, rule_localp, 1, 1, 2, 0)); C.push_back(mkc(F_FOURIER, rule_fourier, 2, 1, 1)); C.push_back(mkc(F_SEQUENCE, rule_leja, 1, 2, 3));
         Cfg t = mkc(F_WAVELET, rule_wavelet, 1, 1, 2, 1); t.ta = {-0.7}; t.tb = {2.1}; C.push_back(t); }
     std::vector<StateSpec> S;
-    for(auto &c : C) for(int k=0;k<4;k++){ if (c.outs == 0 && k != 0) continue; if (tier == "quick" && k == 3 && c.fam != F_WAVELET && c.fam != F_LOCALP) continue; StateSpec s; s.cfg = c; s.kind = k; S.push_back(s); }
+    for(auto &c : C) for(int k=0;k<5;k++){ if (c.outs == 0 && k != 0) continue; if (tier == "quick" && k == 3 && c.fam != F_WAVELET && c.fam != F_LOCALP) continue;
+        if (k == 4 && (nonNestedRule(c.rule) || (tier == "quick" && c.fam == F_WAVELET))) continue; StateSpec s; s.cfg = c; s.kind = k; S.push_back(s); }
     return S;
 }
 
